@@ -60,7 +60,7 @@ class Unsupported(Exception):
 
 
 class Path:
-    __slots__ = ('conds', 'env', 'events', 'ret', 'raised', 'stores', 'snaps', 'exit')
+    __slots__ = ('conds', 'env', 'events', 'ret', 'raised', 'stores', 'snaps', 'exit', 'ctime')
 
     def __init__(self, conds=(), env=None, events=(), stores=()):
         self.conds, self.env, self.events, self.stores = conds, env or {}, events, stores
@@ -68,9 +68,11 @@ class Path:
         self.raised = None
         self.snaps = {}
         self.exit = 'end'
+        self.ctime = {}
 
     def fork(self):
         q = Path(self.conds, dict(self.env), self.events, self.stores)
+        q.ctime = dict(self.ctime)
         return q
 
     def cond(self, src):
@@ -176,6 +178,7 @@ class SymPaths:
         self.ncall = 0
         self.nhavoc = 0
         self.nfreeze = 0
+        self.pure_project = False
         self.named_constants = False
         self.nobj0 = 0
         self.stable = _stable_tables(func.node)
@@ -333,6 +336,7 @@ class SymPaths:
         a, b = path.fork(), path.fork()
         a.conds = path.conds + ((src, True),)
         b.conds = path.conds + ((src, False),)
+        a.ctime[src] = b.ctime[src] = len(path.events)
         return [a], [b]
 
     def value_paths(self, expr, path):
@@ -393,7 +397,7 @@ class SymPaths:
                     n.func = self.expand(e.func, q) if not isinstance(e.func, ast.Name) else (copy.deepcopy(q.env[e.func.id]) if e.func.id in q.env else e.func)
                 n.args = vals[:len(e.args)]
                 n.keywords = [ast.keyword(arg=k.arg, value=v) for k, v in zip(e.keywords, vals[len(e.args):])]
-                if self.is_pure_call(n):
+                if self.is_pure_call(n) or (self.pure_project and self._effect_free(e)):
                     out.append((q, n))
                 else:
                     self.ncall += 1
@@ -426,6 +430,18 @@ class SymPaths:
                     getattr(n, name)[i] = v
             out.append((q, n))
         return out
+
+    def _effect_free(self, call):
+        """the (unexpanded) call resolves to project functions that the effect analysis shows to be effect-free"""
+        from . import purity
+        try:
+            tgt = self.p.resolve_call(self.f, call)
+        except Exception:
+            return False
+        if isinstance(tgt, list) and tgt:
+            pure = purity.pure_functions(self.p)
+            return all(g.qualname in pure for g in tgt)
+        return False
 
     def _pristine(self, path, sym):
         """no call received / no store went into the object since it was created on this path"""
@@ -508,8 +524,17 @@ class SymPaths:
     def freeze_store(self, path, tgt):
         """a store to <obj>.f (or <obj>[i]) changes what later reads of any `.f` (any subscript of that object) see: bindings
         and assumed tests that read it are frozen / made stale first (field-name granularity, so aliases are covered)"""
+        troot = tgt
+        while isinstance(troot, (ast.Attribute, ast.Subscript)):
+            troot = troot.value
+        troot = src_of(troot)
+
         def reads(e):
             for n in ast.walk(e):
+                if isinstance(n, ast.Call) and not (isinstance(n.func, ast.Name) and n.func.id in PURE_FUNCS):
+                    # a (pure) call reads whatever its receiver and arguments can reach
+                    if any(isinstance(x, ast.Name) and x.id == troot for x in ast.walk(n)):
+                        return True
                 if isinstance(tgt, ast.Attribute) and isinstance(n, ast.Attribute) and n.attr == tgt.attr:
                     return True
                 if isinstance(tgt, ast.Subscript) and isinstance(n, ast.Subscript) and src_of(n.value) == src_of(tgt.value):
@@ -791,6 +816,7 @@ def summaries(project, func, inline=True, pure=(), select=None, unroll=False, na
     ast.fix_missing_locations(node)
     sp = SymPaths(project, func, node, pure=pure, unroll=unroll)
     sp.named_constants = named_constants
+    sp.pure_project = named_constants
     paths = sp.run()
     for q in paths:
         q.snaps = sp.snaps
@@ -804,6 +830,7 @@ def block_summaries(project, func, stmts, pure=(), env=None, ncall0=0, named_con
     sp.ncall = ncall0
     sp.nobj0 = ncall0
     sp.named_constants = named_constants
+    sp.pure_project = named_constants
     done = []
     first = Path(env=dict(env or {}))
     for q in sp.block(node.body, [first], done):
